@@ -206,6 +206,39 @@ def job(task):
                 check("to_fasta", lambda: o.to_fasta(block_size=b), S(text))
             if has(o, "to_phylip"):
                 check("to_phylip", lambda: o.to_phylip(), S(a["phylip"]))
+            tr = a["translation"]
+            if tr["ok"]:
+                def outcome(thunk, proj):
+                    try:
+                        return proj(thunk())
+                    except Exception:
+                        return "!"
+
+                for inc, trim, iok, allowed in tr["get_translation"]:
+                    if kind == "old" and inc and trim:
+                        continue  # old-style include_stop overrides trim_stop on plain strings too: C12's known finding (7), not a view matter
+                    check("get_translation", lambda: outcome(lambda: o.get_translation(gc=1, incomplete_ok=iok, include_stop=inc, trim_stop=trim), str),
+                          [S(x) for x in allowed], lambda g, w_: g in w_)
+                for strict, want in tr["has_terminal_stop"]:
+                    check("has_terminal_stop", lambda: outcome(lambda: o.has_terminal_stop(gc=1, strict=strict), lambda v: "TRUE" if v else "FALSE"),
+                          want, lambda g, w_: g == ("!" if w_ == "REJECT" else w_))
+                for strict, want in tr["trim_stop_codon"]:
+                    def trimmed():
+                        t = o.trim_stop_codon(gc=1, strict=strict)
+                        return (str(t), t.parent_coordinates() if len(t) else None, t.annotation_offset)
+
+                    def same_trim(g, w_):
+                        if w_["refused"]:
+                            return g == "!"
+                        if g == "!" or g[0] != S(w_["str"]):
+                            return False
+                        b = w_["bounds"]
+                        if not b:
+                            return True
+                        pc = g[1]
+                        return pc[0] == "s" and pc[3] == b[0] and b[1] <= pc[1] <= b[2] and b[3] <= pc[2] <= b[4] and g[2] == pc[1]
+
+                    check("trim_stop_codon", lambda: outcome(trimmed, lambda v: v), want, same_trim)
             for ca, cb, ck, eq, lt, cont in (a["cmp"] if variant == 0 else a["cmp"][::7]):
                 ok_ = (ca, cb, ck)
                 if ok_ not in others:
@@ -222,9 +255,15 @@ def job(task):
     return fails, dict(stats)
 
 
-def stage_read(run, scratch, tier, totals, tm, warm=None):
+def tlc_read(scratch, tier):
     emit = scratch / "emit-read.ndjson"
-    res = run_tlc("SeqViewRead", f"MC_SeqViewRead_{tier}.cfg", scratch, workers=min(16, mp.cpu_count()), env={"EMIT_FILE": emit}, timeout=1800)
+    # one TLC worker: an Observe record is longer than the buffer within which concurrent CSVWrite lines stay intact
+    res = run_tlc("SeqViewRead", f"MC_SeqViewRead_{tier}.cfg", scratch, workers=1, env={"EMIT_FILE": emit}, timeout=1800)
+    return res, emit
+
+
+def stage_read(run, scratch, tier, totals, tm, warm=None, pre=None):
+    res, emit = pre if pre is not None else tlc_read(scratch, tier)
     run.add_tlc(res)
     tm["read.tlc"] = round(res.wall, 1)
     t0 = time.time()
